@@ -13,7 +13,16 @@ for d in sorted(glob.glob('/verif/seeded/*/')):
     note = m.get('strengthened', '')
     rows.append('| %s | %s | %s | %s | %s |' % (sid, m['summary'].replace('|', '/')[:230], m.get('trigger', '').replace('|', '/')[:160],
                                                ('caught: ' + ', '.join(caught)) if caught else 'MISSED', (what[:110] + (' — ' + note if note else '')).replace('|', '/')))
-table = ('Each change was produced by a fresh sub-agent that saw only the text of one property and a scratch worktree; it compiles, keeps '
+n_total = len(rows)
+n_str = sum(1 for d in glob.glob('/verif/seeded/*/') if 'strengthened' in json.load(open(d + 'meta.json')))
+stats = ('%d changes were delivered in three rounds (one per property, then a second one for every property and a third one for ten of them, '
+         'each told to avoid the earlier ones). %d were reported by the quick check as it stood when the change arrived; for the other %d '
+         'the check was first strengthened (what was added is noted in the last column and in `meta.json`), after which every one of the %d '
+         'is reported (`caught` lists the check/seed runs that exit 1). What the misses had in common: the proofs and models were not the '
+         'weak point, the generators were - an entry point, an input form, or an object *history* (call A, then B on the same object) that '
+         'the correspondence did not exercise. Two of the strengthened generators then found further genuine defects on the clean tree '
+         '(F45, F46) and one a new listed finding (F47).\n\n' % (n_total, n_total - n_str, n_str, n_total))
+table = (stats + 'Each change was produced by a fresh sub-agent that saw only the text of one property and a scratch worktree; it compiles, keeps '
          'the 536 baseline tests passing, and comes with a demonstration that exits 1 on the changed tree and 0 on the original (re-run and '
          'confirmed by me before it was kept). `patch.diff`, `demo.py`, `meta.json` (with the outcome of the quick check, seeds 0 and 1) are in '
          '`/verif/seeded/<id>/`.\n\n| id | change | needs | quick check | reported as |\n|---|---|---|---|---|\n' + '\n'.join(rows) + '\n')
